@@ -39,9 +39,9 @@ def deep(name, grammars, depths, **kw):
 
 PLANS = {
     "C01": {
-        "quick": [ex("peg2", "peg", 2, 3, alphabet=["a", "b", "Z"]), ex("stat", "stat", 1, 3, alphabet=["a", "b", "E"], kinds=["static", "staticc", "str"]),
+        "quick": [ex("peg2", "peg", 2, 3, alphabet=["a", "b", "Z"]), ex("pegI2", "pegI", 2, 3, modes=["E"]), ex("stat", "stat", 1, 3, alphabet=["a", "b", "E"], kinds=["static", "staticc", "str"]),
                   rec("pegR", "peg", 1500, 8, 8)],
-        "thorough": [ex("peg2", "peg", 2, 4, alphabet=["a", "b", "E"]), ex("peg3", "peg", 3, 3), ex("stat", "stat", 1, 5, alphabet=["a", "b", "E"], kinds=["static", "staticc", "str"]),
+        "thorough": [ex("peg2", "peg", 2, 4, alphabet=["a", "b", "E"]), ex("peg3", "peg", 3, 3), ex("pegI3", "pegI", 3, 3, timeout=3000), ex("stat", "stat", 1, 5, alphabet=["a", "b", "E"], kinds=["static", "staticc", "str"]),
                      rec("pegR", "peg", 20000, 10, 10)],
     },
     "C02": {
@@ -177,7 +177,7 @@ PLANS = {
         "thorough": [ex("lbl3", "lbl", 3, 4), ex("lblT", "lblT", 1, 5, alphabet=["a", "b", "c"]), rec("lblR", "lbl", 30000, 10, 10)],
     },
     "C18": {
-        "quick": [ex("peg2", "peg", 2, 3), ex("emit3", "emit", 3, 3), ex("txtc", "txtc", 1, 3, alphabet=["1", "a", "S", "+"], modes=["E"]),
+        "quick": [ex("peg2", "peg", 2, 3), ex("pegI2", "pegI", 2, 3), ex("emit3", "emit", 3, 3), ex("txtc", "txtc", 1, 3, alphabet=["1", "a", "S", "+"], modes=["E"]),
                   rec("pegR", "peg", 1500, 8, 8, kinds=["str", "slice", "stream"]), rec("emitR", "emit", 1500, 8, 8), rec("txtR", "txt", 800, 6, 8), rec("rcvR", "rcv", 800, 8, 8)],
         "thorough": [ex("peg3", "peg", 3, 3), ex("emit4", "emit", 4, 3), ex("txtc", "txtc", 1, 4, alphabet=["1", "a", "S", "N", "+"]), ex("rcv3", "rcv", 3, 3, modes=["E"]),
                      rec("pegR", "peg", 20000, 10, 10, kinds=["str", "slice", "stream"]), rec("emitR", "emit", 20000, 10, 10), rec("txtR", "txt", 10000, 6, 10),
